@@ -86,7 +86,7 @@ Proof.
   induction l as [|x r IH]; intros first prev Hle Hinc.
   - cbn. now rewrite !app_nil_r.
   - rewrite increasing_cons in Hinc. apply andb_prop in Hinc. destruct Hinc as [H1 H2].
-    cbn [runs]. unfold lazy_jump. destruct (1 <? x - prev) eqn:E.
+    cbn [runs]. destruct (lazy_jump (x - prev)) eqn:E; unfold lazy_jump in E.
     + cbn [seg_vals flat_map fst snd]. fold (seg_vals (runs x x r)). rewrite IH by (auto; lia).
       replace (Z.to_nat (x + 1 - x)) with 1%nat by lia. rewrite range_list_1. reflexivity.
     + assert (x = prev + 1) by lia. subst x. rewrite IH by (auto; lia).
@@ -102,7 +102,7 @@ Proof.
   - cbn. inversion Hub; subst. constructor; [cbn; lia|constructor].
   - inversion Hub as [|? ? Hp Hub']; subst.
     rewrite increasing_cons in Hinc. apply andb_prop in Hinc. destruct Hinc as [H3 H4].
-    cbn [runs]. unfold lazy_jump. destruct (1 <? x - prev).
+    cbn [runs]. destruct (lazy_jump (x - prev)).
     + constructor; [cbn; lia|]. apply IH; auto; lia.
     + apply IH; auto; lia.
 Qed.
@@ -118,7 +118,7 @@ Lemma runs_last l first prev : snd (last (runs first prev l) (0, 0)) = last (pre
 Proof.
   revert first prev. induction l as [|x r IH]; intros; [reflexivity|].
   cbn [runs]. change (last (prev :: x :: r) 0) with (last (x :: r) 0).
-  unfold lazy_jump. destruct (1 <? x - prev).
+  destruct (lazy_jump (x - prev)).
   - specialize (IH x x). pose proof (runs_nonempty r x x) as NE. destruct (runs x x r) as [|p l] eqn:E; [congruence|].
     change (last ((first, prev + 1) :: p :: l) (0, 0)) with (last (p :: l) (0, 0)). exact IH.
   - apply IH.
